@@ -36,6 +36,8 @@ def run_shard(prop, tier, seed, shard, nshards, only=None):
     ctx.fail_keys = None if fk is None else set(fk) | {'exception', 'aspect'}
     budget = getattr(mod, 'TIME_BUDGET', {'quick': 90, 'thorough': 900})
     ctx.deadline = time.time() + budget.get(tier, 600)
+    import warnings
+    warnings.simplefilter('ignore')
     reach.start(pkg)
     try:
         mod.run(ctx)
